@@ -1645,3 +1645,189 @@ class CommonMiscPart:
 
 
 COMMONMISC = CommonMiscPart()
+
+
+# ---------------------------------------------------------------------------------------------------------------------
+# FORWARD: Node.__getattr__ (forward_attrs)
+# ---------------------------------------------------------------------------------------------------------------------
+class Attrs:
+    """a data object with arbitrary attributes (identity-hashed)"""
+
+    def __init__(self, pairs):
+        for k, v in pairs:
+            object.__setattr__(self, k, v)
+
+    def __repr__(self):
+        return "Attrs"
+
+
+FW_NATIVE = ["children", "data_id", "data", "meta", "node_id", "parent", "tree", "name", "path", "add", "is_leaf", "_data", "_parent", "_children"]
+FW_NAMES = FW_NATIVE + ["kind", "_kind", "age", "guid", "nope", "x y", "Name", "first", "remove_me"]
+
+
+class ForwardPart:
+    tag = "FORWARD"
+    case_module = "CaseMiscForward"
+    case_vo = "theories/Cases/CaseMiscForward.vo"
+    run_fn = "run_misc_forward"
+    rule = ("Node.__getattr__: plain / typed trees with forward_attrs on / off and removed nodes; data objects carrying random subsets of 23 "
+            "attribute names, among them every native name of the documented list (children, data_id, data, kind, meta, node_id, parent, "
+            "tree, name ...), private slots, and names no object has; every name is looked up on the node; oracle: a native name never "
+            "yields the data object's value, a foreign name yields exactly it iff forward_attrs is on and the data object has it, "
+            "AttributeError otherwise")
+
+    def descs(self, tier, rng):
+        for typed in (False, True):
+            for fw in (False, True):
+                for removed in (False, True):
+                    for k in range(3 if tier == "quick" else 25):
+                        yield dict(typed=typed, forward=fw, removed=removed, attrs=sorted(rng.sample(FW_NAMES, rng.randint(0, len(FW_NAMES)))) if k else list(FW_NAMES))
+
+    def run(self, desc) -> Case:
+        typed, fw = desc["typed"], desc["forward"]
+        pairs = [(k, "D:" + k) for k in desc["attrs"]]
+        data = Attrs(pairs)
+        tree = (TypedTree if typed else Tree)("F", forward_attrs=fw)
+        node = tree.add(data, kind="k") if typed else tree.add(data)
+        if desc["removed"]:
+            node.remove()
+        own = [n for n in FW_NAMES if hasattr(type(node), n)]
+        obs, fails = [], []
+        for name in FW_NAMES:
+            try:
+                v = getattr(node, name)
+                err = None
+            except AttributeError as e:
+                v, err = None, e
+            except Exception as e:  # noqa: BLE001
+                v, err = None, e
+                fails.append(f"getattr(node, {name!r}) raised {type(e).__name__}")
+            from_data = err is None and isinstance(v, str) and v == "D:" + name
+            native = name in FW_NATIVE or (typed and name in ("kind", "_kind"))
+            if native and (from_data or (err is not None and not desc["removed"])):
+                fails.append(f"native name {name!r}: {'forwarded to the data object' if from_data else 'AttributeError'}")
+            if not native:
+                should = fw and not desc["removed"] and name in desc["attrs"]
+                if should != from_data or (not should and err is None):
+                    fails.append(f"{name!r}: forward_attrs={fw}, data has it: {name in desc['attrs']}, removed: {desc['removed']} -> "
+                                 f"{'value ' + repr(v) if err is None else 'AttributeError'}")
+            # a native name answers (or raises) on its own: what it answers is the business of the other parts (REMOVED for removed nodes)
+            obs.append([0] if name in own and not from_data else [-1] if err is not None else [1, pv_obs(v)] if from_data else [0])
+        tf = "None" if desc["removed"] else f"(Some {H.coq_bool(fw)})"
+        coq = (f"({H.coq_list(H.coq_text(n) for n in own)}, {tf}, {dict_coq([[k, v] for k, v in pairs])}, "
+               f"{H.coq_list(H.coq_text(n) for n in FW_NAMES)})")
+        return Case(desc=desc, coq_input=coq, impl_obs=obs, oracle_fail=("forward: " + fails[0]) if fails else None, key=H.digest(desc),
+                    nontrivial=bool(desc["attrs"]), stats=dict(typed=typed, forward=fw, removed=desc["removed"], forwarded=sum(1 for o in obs if o[0] == 1)))
+
+
+FORWARD = ForwardPart()
+
+
+# ---------------------------------------------------------------------------------------------------------------------
+# ZIPIO: open_as_compressed_output_stream / open_as_uncompressed_input_stream (the byte transport of save / load)
+# ---------------------------------------------------------------------------------------------------------------------
+ZIP_TEXTS = ["", "x", '{"meta": {}, "nodes": []}', "line1\nline2\n", "ä│ \U0001f600", "PK\x03\x04 not a zip", "a" * 300]
+ZIP_COMPS = [False, True, 0, 8, 12, 14, 1, 7, 99, -1]
+
+
+class ZipIOPart:
+    tag = "ZIPIO"
+    case_module = "CaseMiscZipIO"
+    case_vo = "theories/Cases/CaseMiscZipIO.vo"
+    run_fn = "run_misc_zipio"
+    rule = ("the stream helpers of save/load on real files: 7 texts (empty, JSON, multi-line, non-ASCII, a text starting with the ZIP "
+            "magic, 300 characters) x compression False / True / 0 / 8 / 12 / 14 / three invalid ints, read back with auto_uncompress "
+            "on and off; hand-made containers with 0, 1 (foreign member name, any method) and 2 members; oracle: is_zipfile, member "
+            "list, method and text of the written file inspected with zipfile directly, round trip, ValueError for != 1 member")
+
+    def descs(self, tier, rng):
+        for t in ZIP_TEXTS:
+            for c in ZIP_COMPS:
+                yield dict(kind="write", name="f.nutree" if len(t) % 2 else "dir.d name", comp=c, text=t)
+        for members in ([], [["other.txt", 8, "hello"]], [["a.json", 0, "1"], ["b.json", 12, "2"]], [["x", 14, "ä"]], [["x", 0, ""], ["y", 0, ""], ["z", 8, "q"]]):
+            yield dict(kind="read", members=members)
+        yield dict(kind="read", plain="just text")
+
+    def run(self, desc) -> Case:
+        import tempfile
+        import zipfile
+        from pathlib import Path
+        from nutree.common import open_as_compressed_output_stream, open_as_uncompressed_input_stream
+        tmp = Path(tempfile.mkdtemp(prefix="nutree_zip_"))
+        fails = []
+
+        def read(path, auto):
+            try:
+                with open_as_uncompressed_input_stream(path, auto_uncompress=auto) as fp:
+                    return [0, fp.read()]
+            except ValueError as e:
+                if isinstance(e, UnicodeDecodeError):
+                    return [1]
+                return [-1, H.err_class(e)]
+            except Exception as e:  # noqa: BLE001
+                return [-1, H.err_class(e)]
+
+        def content(path):
+            if zipfile.is_zipfile(path):
+                with zipfile.ZipFile(path) as zf:
+                    return [1, [[i.filename, i.compress_type, zf.read(i).decode("utf8")] for i in zf.infolist()]]
+            return [0, path.read_text(encoding="utf8")]
+
+        try:
+            if desc["kind"] == "write":
+                path = tmp / desc["name"]
+                c, t = desc["comp"], desc["text"]
+                try:
+                    with open_as_compressed_output_stream(path, compression=c) as fp:
+                        fp.write(t)
+                    err = None
+                except Exception as e:  # noqa: BLE001
+                    err = e
+                if err is not None:
+                    obs = [-1, H.err_class(err)]
+                    if c is False or c is True or c in (0, 8, 12, 14):
+                        fails.append(f"compression={c!r}: {type(err).__name__}: {err}")
+                else:
+                    fc = content(path)
+                    r1, r0 = read(path, True), read(path, False)
+                    if fc[0] == 1 and r0[0] != 0:
+                        r0 = [1]          # a container read as text: undecodable or garbage – outside the model
+                    elif fc[0] == 1:
+                        r0 = [1]
+                    obs = [fc, r1, r0]
+                    # the statement
+                    if r1 != [0, t]:
+                        fails.append(f"compression={c!r}: wrote {t!r}, read back {r1!r}")
+                    if (fc[0] == 0) != (c is False):
+                        fails.append(f"compression={c!r}: {'plain file' if fc[0] == 0 else 'ZIP container'}")
+                    if fc[0] == 1 and (len(fc[1]) != 1 or fc[1][0][0] != desc["name"] + ".json" or fc[1][0][1] != (12 if c is True else int(c))):
+                        fails.append(f"compression={c!r}: members {[(m[0], m[1]) for m in fc[1]]}")
+                comp = "CFalse" if c is False else "CTrue" if c is True else f"(CInt {H.z(c)})"
+                coq = f"(ZWrite {H.coq_text(desc['name'])} {comp} {H.coq_text(t)})"
+            else:
+                path = tmp / "made.zip"
+                if "plain" in desc:
+                    path.write_text(desc["plain"], encoding="utf8")
+                    coq = f"(ZRead (FPlain {H.coq_text(desc['plain'])}))"
+                    want1 = [0, desc["plain"]]
+                else:
+                    with zipfile.ZipFile(path, "w") as zf:
+                        for name, method, text in desc["members"]:
+                            zf.writestr(zipfile.ZipInfo(name), text.encode("utf8"), compress_type=method)
+                    ms = H.coq_list(f"({H.coq_text(n)}, {H.z(m)}, {H.coq_text(x)})" for n, m, x in desc["members"])
+                    coq = f"(ZRead (FZip {ms}))"
+                    want1 = [0, desc["members"][0][2]] if len(desc["members"]) == 1 else [-1, 3]
+                r1, r0 = read(path, True), read(path, False)
+                if "plain" not in desc:
+                    r0 = [1]
+                if r1 != want1:
+                    fails.append(f"reading {desc}: {r1!r}, expected {want1!r}")
+                obs = [r1, r0]
+        finally:
+            import shutil
+            shutil.rmtree(tmp, ignore_errors=True)
+        return Case(desc=desc, coq_input=coq, impl_obs=obs, oracle_fail=("zipio: " + fails[0]) if fails else None, key=H.digest(desc),
+                    stats=dict(kind=desc["kind"], comp=str(desc.get("comp"))))
+
+
+ZIPIO = ZipIOPart()
